@@ -7,7 +7,7 @@ CONSTANTS
   Version = 21
   Deviations = {}
   MaxLevel = 4
-  Acts = {"AddHole", "AddDepthData", "AddObjectData", "AddBadData", "RemovePlainChild", "CopyEdit", "ReopenRemoveHole", "Reopen", "RemoveHoleViaParent", "RemoveDataViaParent", "RemoveDataViaWorkspace"}
+  Acts = {"AddHole", "AddDepthData", "AddObjectData", "AddBadData", "RemovePlainChild", "CopyEdit", "CopyPurge", "ReopenRemoveHole", "Reopen", "RemoveHoleViaParent", "RemoveDataViaParent", "RemoveDataViaWorkspace"}
   TrackSession = FALSE
   Kind = "float"
 VIEW vw
@@ -25,4 +25,5 @@ INVARIANT PgCacheFresh
 INVARIANT PlainChildClean
 PROPERTY Isolation
 PROPERTY ProtectedStay
+PROPERTY CopiesReadable
 CHECK_DEADLOCK FALSE
